@@ -37,6 +37,7 @@ package keeper
 // ---- C15: supply ---------------------------------------------------------------------------------
 //@ func (Keeper).MintPoolShareToAccount
 //@ forall d Str
+//@ requires addr != modAddr("commitment")
 //@ mints C15/only-this-pools-share-token: d == types.GetPoolShareDenom(pool.PoolId)
 
 //@ func (Keeper).BurnPoolShareFromAccount
@@ -56,7 +57,6 @@ package keeper
 //@ requires sender != modAddr("commitment")
 //@ ensures C02/total-shares-track-supply: err == nil ==> shareGap(ctx, p) == old(shareGap(ctx, p))
 //@ ensures C02/minted-shares-go-into-custody: err == nil ==> sharesOutsideCustody(ctx, p) == old(sharesOutsideCustody(ctx, p))
-//@ ensures C08/frame: true
 
 //@ func (Keeper).ExitPool
 //@ forall p Int
@@ -65,7 +65,6 @@ package keeper
 //@ requires sender != modAddr("commitment")
 //@ ensures C02/total-shares-track-supply: err == nil ==> shareGap(ctx, p) == old(shareGap(ctx, p))
 //@ ensures C02/burnt-shares-come-out-of-custody: err == nil ==> sharesOutsideCustody(ctx, p) == old(sharesOutsideCustody(ctx, p))
-//@ ensures C08/frame: true
 
 // ---- C08 (leveragelp AddPool): a stored amm pool sits under its own id --------------------------------
 //@ rowinv C08/ammPoolKey table amm:types.KeyPrefix/types.PoolKey row types.Pool : row.PoolId == key1
